@@ -21,7 +21,9 @@
 // compositions along type-compatible edges; (c) malformed NodeProto /
 // EvaluateRequestProto messages; (h) every parameter that accepts a collection
 // x heterogeneous collections (first element of one kind, a later element of
-// another; hetero.go).
+// another; hetero.go); (l) lambdas enumerated by how their parameters line up
+// with the arguments of the call in their body, in several contexts
+// (lambdas.go).
 package main
 
 import (
@@ -357,11 +359,15 @@ type space struct {
 	nA      int64
 	extra   []func() caseT // a-empty, a-arity, a-curry, b, c (built on demand)
 	h       *hetero        // part (h), after the extras
+	l       *lambdas       // part (l), after part (h)
 }
 
-func (s *space) Len() int64 { return s.nA + int64(len(s.extra)) + s.h.n }
+func (s *space) Len() int64 { return s.nA + int64(len(s.extra)) + s.h.n + s.l.n }
 
 func (s *space) caseAt(i int64) caseT {
+	if i >= s.nA+int64(len(s.extra))+s.h.n {
+		return s.l.caseAt(i - s.nA - int64(len(s.extra)) - s.h.n)
+	}
 	if i >= s.nA+int64(len(s.extra)) {
 		return s.h.caseAt(i-s.nA-int64(len(s.extra)), s.fns)
 	}
@@ -737,12 +743,14 @@ func build(tier string) (kit.Space, string) {
 
 	// --- (h) heterogeneous collections for every parameter that accepts a collection
 	s.h = buildHetero(s.fns, s.menus, thorough)
+	// --- (l) lambda shapes
+	s.l = buildLambdas(s.fns, s.menus, thorough)
 
 	bound := fmt.Sprintf("%d registered functions; part (a): %d argument tuples against the small world (full product of the per-parameter menus, %s tier menus: every snippet of the parameter's categories + 2 ill-typed)%s + %d arity/curry variants; "+
-		"part (b): %d depth-2 compositions f(..g(good%s)..) over every type-compatible (f, parameter, g); part (c): %d malformed/edge NodeProto and EvaluateRequestProto messages; part (h): %s; "+
-		"arity/curry variants, (b), (c) and (h) against the small world%s (h: small world only); integer arguments <= 20 (s2 levels / tile zooms grow the output as 4^level: zoom 24 on the 100 m path is 430489 tiles); hang limit %v CPU",
+		"part (b): %d depth-2 compositions f(..g(good%s)..) over every type-compatible (f, parameter, g); part (c): %d malformed/edge NodeProto and EvaluateRequestProto messages; part (h): %s; part (l): %s; "+
+		"arity/curry variants, (b), (c), (h) and (l) against the small world%s (h, l: small world only); integer arguments <= 20 (s2 levels / tile zooms grow the output as 4^level: zoom 24 on the 100 m path is 430489 tiles); hang limit %v CPU",
 		len(s.fns), s.nA, tier, map[bool]string{true: fmt.Sprintf(" + %d tuples against the empty world (each parameter over its whole menu, the others plain)", nStar), false: ""}[thorough],
-		len(s.extra)-nStar-nB-nC, nB, map[bool]string{true: "|edge", false: ""}[thorough], nC, s.h.describe(), map[bool]string{true: " and the empty world", false: ""}[thorough], hangCPU)
+		len(s.extra)-nStar-nB-nC, nB, map[bool]string{true: "|edge", false: ""}[thorough], nC, s.h.describe(), s.l.describe(), map[bool]string{true: " and the empty world", false: ""}[thorough], hangCPU)
 	return s, bound
 }
 
@@ -756,6 +764,12 @@ func main() {
 	// (api.Evaluate path) the first 20 quick-tier cases whose description contains it
 	if os.Getenv("C23_LIST") != "" {
 		listCollectionParams()
+		sp, bound := build(os.Getenv("C23_LIST"))
+		l := sp.(*space).l
+		fmt.Fprintln(os.Stderr, bound)
+		for _, i := range []int64{0, 5, l.n / 7, l.n / 3, l.n / 2, l.n - 1} {
+			fmt.Fprintf(os.Stderr, "  l case %d: %s\n", i, l.caseAt(i).what)
+		}
 		return
 	}
 	if sub := os.Getenv("C23_FIND"); sub != "" {
@@ -777,7 +791,8 @@ func main() {
 		Rule: "A case is one request: (a) a call of a registered function with one argument tuple from the product of its per-parameter menus of client-sendable expression snippets (values assignable/convertible to the parameter type incl. empty collections, negative/zero counts, absent and invalid ids, lambdas of wrong arity, plus two ill-typed snippets), plus one-too-few/one-too-many arguments and curried forms; " +
 			"(b) f(..g(args)..) for every (f, parameter, g) whose result category fits the parameter; (c) malformed NodeProto/EvaluateRequestProto messages in root/argument/function/lambda-body/collection positions; " +
 			"(h) for every (function, parameter) whose parameter accepts a collection (typed, untyped or interface{}): a heterogeneous collection of 2 or 3 elements in that position — the first element is (key kind, value kind) over the element kinds (int, float, string, feature id, tag, point, feature, nil, collection, pair; thorough also bool, path, area, query, callable, change), elements other than the odd one repeat those kinds with other values, and the odd element (the second of 2, the last of 3, thorough also the middle of 3) differs in the kind of its key or of its value, over every other kind — sent as a call (collection (pair k v)..) and as a collection literal; the other arguments all plain / all edge (thorough: every plain/edge combination; plain for a parameter declared as a collection, relation or area id is the id of that type) and every callable argument over its whole menu (native functions, lambdas, partial applications). " +
-			"Every request is marshalled and unmarshalled (only wire-expressible messages reach the server), then evaluated by api.Evaluate with full recursive consumption of the result and by the in-process gRPC service. " +
+			"(l) lambdas {p0..p(k-1) -> f x0..x(m-1)}, k and m = 0..3, for every registered function f and every argument sequence over the parameters and a literal (thorough: also a call expression and a free symbol) — so the first m parameters in order, the last m, permutations, repeated/unused parameters and mixes with literals for m < k, m = k, m > k — sent as the request itself, applied to k arguments, returned from and called through an enclosing lambda, and as the callable argument of every higher-order function. " +
+			"Every request is marshalled and unmarshalled (only wire-expressible messages reach the server), then evaluated by api.Evaluate (unsimplified expression) with full recursive consumption of the result and by the in-process gRPC service (which runs api.Simplify first, as the server does). " +
 			"Non-trivial: the request got past symbol resolution and argument conversion (a value, or an error raised by the function body). Oracle: value or error; panic/crash/hang is a violation classified <function>:<panic site>.",
 		Assumptions: []string{
 			"requests are what proto.Unmarshal can produce from bytes (oneof wrappers never hold nil messages, repeated fields never hold nil elements)",
